@@ -111,7 +111,49 @@ class ApiGen:
         name = str(r.choice(list(self.vds)))
         m = self.vds[name]
         v = "$" + name
-        k = r.integers(0, 30)
+        k = r.integers(0, 32)
+        if k >= 30:
+            # allocation dance in per-frequency z0 mode: shrink / grow the
+            # frequency count and the port count in changing order so that
+            # spare rows and spare columns get re-exposed, touching every
+            # fz0 row afterwards
+            t = int(r.choice([1, 4, 5]))
+            n0, F0 = int(r.integers(1, 4)), int(r.integers(1, 5))
+            if m["F"] == 0 or max(m["r"], m["c"]) == 0 or r.random() < 0.3:
+                s.op("vnadata_init", v, t, n0, n0, F0)
+                m.update(type=t, r=n0, c=n0, F=F0, fz0=False)
+            if m["r"] != m["c"] or m["type"] in (2, 3, 6, 7, 8, 9, 10):
+                s.op("vnadata_resize", v, t, n0, n0, max(1, m["F"]))
+                m.update(type=t, r=n0, c=n0, F=max(1, m["F"]))
+            s.op("vnadata_set_fz0", v, int(r.integers(0, m["F"])), 0,
+                 cx(self.cval()))
+            m["fz0"] = True
+            for _ in range(int(r.integers(2, 5))):
+                what = int(r.integers(0, 4))
+                n, F = m["r"], m["F"]
+                if what == 0:
+                    F = int(r.integers(0, F + 1))
+                elif what == 1:
+                    F = F + int(r.integers(1, 4))
+                elif what == 2:
+                    n = n + int(r.integers(1, 3))
+                else:
+                    n = max(1, n - 1)
+                if r.random() < 0.25 and F > m["F"]:
+                    for _k in range(F - m["F"]):
+                        s.op("vnadata_add_frequency", v, hx(r.uniform(0, 1e10)))
+                    n = m["r"]
+                else:
+                    s.op("vnadata_resize", v, m["type"] if m["type"] in
+                         (1, 4, 5) else t, n, n, F)
+                m.update(r=n, c=n, F=F)
+                for fi in range(F):
+                    s.op("vnadata_get_fz0_vector", v, fi)
+                    if r.random() < 0.5:
+                        s.op("vnadata_set_fz0", v, fi, int(r.integers(0, n)),
+                             cx(self.cval()))
+            s.op("dump_vnadata", v)
+            return
         if k < 3:
             valid = r.random() < 0.8
             t, rows, cols, F = self.vd_dims(valid)
